@@ -14,6 +14,7 @@ import (
 	"github.com/oauth2-proxy/oauth2-proxy/v7/pkg/authentication/basic"
 	"github.com/oauth2-proxy/oauth2-proxy/v7/verifx/explore"
 	"github.com/oauth2-proxy/oauth2-proxy/v7/verifx/sched"
+	"github.com/oauth2-proxy/oauth2-proxy/v7/verifx/vrt"
 )
 
 // C20 — credential and allow-list files reload atomically and race-free (SCHED).
@@ -639,6 +640,7 @@ func init() {
 		},
 		shards: func(tier string) int { return 16 },
 		run: func(c *Ctx) {
+			vrt.Enabled = true
 			env := &c20Env{}
 			_, _, htq := env.get("htpasswd")
 			_, _, emq := env.get("emails")
@@ -674,6 +676,7 @@ func init() {
 			if err := json.Unmarshal(raw, &rp); err != nil {
 				return err.Error()
 			}
+			vrt.Enabled = true
 			env := &c20Env{}
 			r := c20Exec(env, rp.Scenario, explore.Replay(rp.Choices, nil), false)
 			for _, v := range r.violations {
